@@ -50,7 +50,7 @@ def pkg_dir(demo_path):
     m = re.search(r"^package\s+(\w+)", src, re.M)
     name = m.group(1) if m else "mail"
     return {"mail": ".", "mail_test": ".", "smtp": "smtp", "smtp_test": "smtp", "log": "log", "log_test": "log",
-            "pkcs7": "internal/pkcs7", "pbkdf2": "internal/pbkdf2", "main": None}.get(name, "."), src
+            "pkcs7": "internal/pkcs7", "pbkdf2": "internal/pbkdf2", "main": None}.get(name, "zz_seed_demo_pkg"), src
 
 
 def main():
@@ -100,12 +100,15 @@ def main():
     if demo and meta.get("builds"):
         d, src = pkg_dir(demo)
         tests = re.findall(r"^func (Test\w+)\(", src, re.M)
+        tag = re.search(r"^//go:build\s+(\w+)\s*$", src, re.M)
+        tagflag = ("-tags %s " % tag.group(1)) if tag else ""
         if d is None:
             demo_cmd = "go run %s" % demo
         else:
+            os.makedirs(os.path.join(wt, d), exist_ok=True)
             demo_dst = os.path.join(wt, d, "zz_seed_demo_test.go")
             shutil.copy(demo, demo_dst)
-            demo_cmd = "TEST_BASEPORT=%d TEST_BASEPORT_SMTP=%d go test -vet=off -count=1 -timeout 300s -run '^(%s)$' ./%s" % (port + 600, port + 1600, "|".join(tests) or "TestDemo", d)
+            demo_cmd = "TEST_BASEPORT=%d TEST_BASEPORT_SMTP=%d go test %s-vet=off -count=1 -timeout 300s -run '^(%s)$' ./%s" % (port + 600, port + 1600, tagflag, "|".join(tests) or "TestDemo", d)
         rc1, out1 = sh(demo_cmd, cwd=wt, timeout=600)
         meta["demo_cmd"] = demo_cmd
         meta["demo_fails_with_patch"] = rc1 != 0
